@@ -14,6 +14,7 @@ CFG = dict(
         "Inst.gen_prefix_bound_on_chars: MetadataSlab::next_prefix increments the last character of the prefix",
         "Inst.gen_bloom_fed_first: TensorStore::put / put_durable add the key to the Bloom filter before the router write",
         "Inst.gen_replay_ids_like_live: WAL replay allocates entity ids for the same records as put_durable",
+        "Inst.gen_slot_alloc_atomic: EmbeddingSlab::allocate_slot takes its slot with one atomic fetch_add",
         "Inst.gen_bloom_add_atomic: BloomFilter::add sets each bit with one atomic fetch_or",
         "Inst.gen_cache_get_key_checked: CacheRing::get compares the slot entry's key before returning its value",
     ],
